@@ -27,6 +27,10 @@
    heading produced by outline placeholders in the heading row that get the same Examples value, cells pairwise
    different, empty cells; one-line and multi-line doc-strings.  The tables / doc-strings of the JSON report must be
    those of the model after the run (step.table.headings, row.cells, step.text), cell by cell (C15.json_mirror).
+7. "stdout" rows: cases of the plan (no hook faults) with MORE -f than -o: the last formatter has no output file and
+   writes to the real stdout, which the driver records -- json to a file + plain / progress2 / progress3 on stdout,
+   plain (+ progress2) to files + json on stdout; judged like every row (the report of the formatter on stdout is read
+   from the recorded stdout text).
 TLC (Consumers_Trace) judges all rows: grammar of the recorded stream, json_valid, json_mirror, json_readback,
 plain_once, progress_once, agree, no_crash.  Python renders, runs, reads files and maps locations to ids."""
 import bisect
@@ -66,14 +70,16 @@ def make_row(rid, job, out):
         raise RuntimeError("plug-in c15 failed on %s:\n%s" % (job["key"], (rep or {}).get("projection_error")))
     ev = out["events"]
     return {"id": rid, "pass": job["pass"], "prog": slim_prog(job["flat"]), "cfg": {"dry": bool(job["cfg"]["dry"])},
-            "formats": list(job.get("formats", DEFAULT_FORMATS)), "events": fmt_events(ev), "last_k": ev[-1]["k"] if ev else "",
+            "formats": list(job.get("formats", DEFAULT_FORMATS)) + list(job.get("stdout_formats", [])), "events": fmt_events(ev), "last_k": ev[-1]["k"] if ev else "",
             "end": {"ran": bool(end["ran"] and not end["escaped"]), "escaped": end["escaped"] or "", "status": end["status"],
                     "step_status": end["step_status"]},
             "reports": rep}
 
 
 def run_job(job):
-    j = dict(job, reports=True, plugins=["c15"], extra_args=QUIET + list(job.get("switches", [])))
+    # formatters without -o come last on the command line: -f / -o are paired by position, the rest writes to stdout
+    j = dict(job, reports=True, plugins=["c15"], extra_args=QUIET + list(job.get("switches", [])) +
+             [a for f in job.get("stdout_formats", []) for a in ("-f", f)])
     j.pop("pass", None)
     return j
 
@@ -165,6 +171,29 @@ def format_sets(chk, rnd):
         sets += [rnd.sample(s, len(s)) for s in subsets]
         sets += [list(p) for p in itertools.permutations(ALL_FORMATS, 2)]
     return sets
+
+
+STDOUT_COMBOS = [(["json"], ["plain"]), (["json"], ["progress2"]), (["json"], ["progress3"]), (["plain"], ["json"]),
+                 (["json", "plain"], ["progress3"]), (["plain", "progress2"], ["json"]), (["json.pretty", "progress3"], ["plain"])]
+
+
+def stdout_jobs(chk, base_jobs):
+    # behave itself prints to stdout, too ("ABORTED: By user.", CLEANUP-ERROR / HOOK-ERROR tracebacks): the text of a report on
+    # stdout is only the formatter's in runs without an interrupt, a raising cleanup or a hook fault
+    pool = [j for j in base_jobs if not j["fault"][0] and
+            not any(st["o"] == "kbd" or st.get("o2") == "kbd" or st["cl_raises"] for e in j["flat"]["elems"] for st in e["steps"])]
+    per = 18 if chk.quick() else 300
+    out = []
+    for ci, (files, std) in enumerate(STDOUT_COMBOS):
+        for k in range(per):
+            j = pool[(ci * 131 + k * 17) % len(pool)]
+            # ... and with everything the steps and step hooks print captured (no --wip, no replaced streams)
+            c = dict(j["cfg"], cap_out=True, cap_err=True, cap_log=True)
+            for key in ("wip", "tamper", "chatty"):
+                if key in c:
+                    c[key] = False
+            out.append(dict(j, key=["stdout", ci, k] + j["key"][1:], cfg=c, formats=files, stdout_formats=std, **{"pass": "stdout"}))
+    return out
 
 
 def formats_jobs(chk, base_jobs, rnd):
@@ -483,7 +512,8 @@ def judge(chk, rows, jobs):
         for v in vs:
             payload = {k: job[k] for k in ("key", "prog", "cfg", "fault", "fault_kind")}
             payload.update({"pass": row["pass"], "formats": row["formats"], "switches": job.get("switches", []),
-                            "skip_hooks": job.get("skip_hooks", []), "decor": job.get("decor", [])})
+                            "skip_hooks": job.get("skip_hooks", []), "decor": job.get("decor", []),
+                            "stdout_formats": job.get("stdout_formats", [])})
             chk.violation(v[2].split("/")[0], signature(v, row), describe(job, row), payload)
     return verdicts
 
@@ -509,8 +539,9 @@ def run(chk):
     rnd = random.Random(chk.seed)
     quick = chk.quick()
     # real runs first: multiprocessing forks, so no other thread of this process may be alive meanwhile
-    base, planned = plan_jobs(chk, 1300 if quick else 24000, rnd)
+    base, planned = plan_jobs(chk, 1100 if quick else 24000, rnd)
     fjobs = formats_jobs(chk, base, rnd)
+    fjobs = fjobs + stdout_jobs(chk, base)
     real_out = stage.drive_all([run_job(j) for j in base + fjobs], procs=PROCS)
     rows, jobs = [], {}
 
@@ -541,7 +572,7 @@ def run(chk):
         emitted.extend(json.loads(t[1]) for t in r.by_tag("CASE"))
     n_emitted = len(emitted)
     emitted.sort(key=lambda c: json.dumps(c["run"], sort_keys=True))
-    nd = 700 if quick else 6000
+    nd = 550 if quick else 6000
     if len(emitted) > nd:
         emitted = rnd.sample(emitted, nd)
     djobs = [design_job(n, c) for n, c in enumerate(emitted)]
@@ -572,7 +603,7 @@ def run(chk):
     chk.exhaustive = False
     chk.extra["distinct_nontrivial"] = len({json.dumps([x["prog"], x["cfg"], x["formats"], x["events"]], sort_keys=True)
                                             for x in rows if any(e["name"] == "result" for e in x["events"])})
-    chk.extra["rows"] = {"reports": len(base), "formats": len(fjobs), "design": len(djobs), "hookskip": len(hjobs), "decor": len(tjobs)}
+    chk.extra["rows"] = {k: sum(1 for x in rows if x["pass"] == k) for k in ("reports", "formats", "stdout", "design", "hookskip", "decor")}
     drows = [x for x in rows if x["pass"] == "decor"]
     chk.extra["decor_tables_compared"] = sum(len(x["reports"]["tables"]["json"]) for x in drows)
     chk.extra["decor_tables_with_repeated_heading"] = sum(1 for x in drows for t in x["reports"]["tables"]["json"]
@@ -605,6 +636,8 @@ def run(chk):
     chk.assumptions = ["a run that died inside a formatter callback is attributed to the first formatter of the run whose automaton crashes "
                        "on the recorded stream (signature only)",
                        "statuses that formatters read from model objects during a callback are compared with the statuses after the run",
+                       "stdout rows: only runs in which behave itself prints nothing to stdout (no KeyboardInterrupt step, no raising "
+                       "cleanup, no hook fault; stdout / stderr / logging capture on), so that the recorded stdout text is the report of the one formatter without -o",
                        "--no-junit --no-summary in all runs, so that a run that dies did so inside a formatter callback",
                        "configurations of the shared plan with scenario_autoretry are run without it: a retried scenario is announced "
                        "twice, about which the statement is silent",
@@ -624,6 +657,9 @@ def replay(chk, payload):
     if rp.get("formats") and rp["formats"] != DEFAULT_FORMATS:
         job["formats"] = rp["formats"]
     job["switches"] = rp.get("switches", [])
+    if rp.get("stdout_formats"):
+        job["stdout_formats"] = rp["stdout_formats"]
+        job["formats"] = [f for f in rp["formats"] if f not in rp["stdout_formats"]]
     if rp.get("decor"):
         job["decor"] = rp["decor"]
         o = decor_case(job)
